@@ -198,6 +198,9 @@ func kekURI(mat int) (string, error) {
 	return u, nil
 }
 
+// ECDSA uses the IEEE P1363 encoding and ECIES the legacy uncompressed point format so that the FIRST byte of a
+// RAW output varies (DER starts with 0x30, an uncompressed point with 0x04): the prefix-collision search of
+// section collision/<class> needs RAW outputs that can start with 0x00 / 0x01.
 // ---- parameters ---------------------------------------------------------------------------------
 
 var (
@@ -249,11 +252,11 @@ func setupParams() {
 		must(err)
 		ed25519Params[v], err = ed25519.NewParameters(pick(v, ed25519.VariantTink, ed25519.VariantCrunchy, ed25519.VariantLegacy, ed25519.VariantNoPrefix))
 		must(err)
-		ecdsaParams[v], err = ecdsa.NewParameters(ecdsa.NistP256, ecdsa.SHA256, ecdsa.DER, pick(v, ecdsa.VariantTink, ecdsa.VariantCrunchy, ecdsa.VariantLegacy, ecdsa.VariantNoPrefix))
+		ecdsaParams[v], err = ecdsa.NewParameters(ecdsa.NistP256, ecdsa.SHA256, ecdsa.IEEEP1363, pick(v, ecdsa.VariantTink, ecdsa.VariantCrunchy, ecdsa.VariantLegacy, ecdsa.VariantNoPrefix))
 		must(err)
 	}
 	for _, v := range noLegacy {
-		eciesParams[v], err = ecies.NewParameters(ecies.ParametersOpts{CurveType: ecies.NISTP256, HashType: ecies.SHA256, NISTCurvePointFormat: ecies.UncompressedPointFormat,
+		eciesParams[v], err = ecies.NewParameters(ecies.ParametersOpts{CurveType: ecies.NISTP256, HashType: ecies.SHA256, NISTCurvePointFormat: ecies.LegacyUncompressedPointFormat,
 			DEMParameters: gcmParams[ref.Raw], Variant: pick(v, ecies.VariantTink, ecies.VariantCrunchy, ecies.VariantUnknown, ecies.VariantNoPrefix)})
 		must(err)
 	}
